@@ -5,8 +5,9 @@ CONSTANTS
   Kind = "uint"
   Atoms <- AtomsNum
   MaxLen = 6
+  MaxAtoms = 99
   Cfgs <- Cfgs03
   Junk = 34
   EmitOn = TRUE
-INVARIANTS ResumeEqFresh Stable OffsSane Emit
+INVARIANTS ResumeEqFresh Stable OffsSane Emit EmitTwo EmitByte
 CHECK_DEADLOCK FALSE
